@@ -143,6 +143,21 @@ def run_c08(ctx: Ctx):
 REGISTRY["C08"] = run_c08
 
 
+def run_c16(ctx: Ctx):
+    ctx.trusted_base = BASE_TRUST + ["Model/Tags.v (compare, _evaluate_python) and Model/Platform.v are hand-written models tied by the S-cmp, S-tags and S-plat streams",
+                                     "C16_plat / nesting theorems are stated for the supported families (manylinux major 2, musllinux major 1, macOS x86_64 10.x with minor <= 16 or >= 11, macOS arm64, Windows)"]
+    props_spec.proof_step(ctx, "Props/C16.v", ["C16_python", "C16_plat", "C16_cmp_refl", "C16_cmp_not_both_higher", "C16_cmp_higher_nested", "C16_cmp_loe_nested",
+                                               "C16_cmp_incompatible_sym", "compare_total"], extra_targets=["Model/CorrTags.v", "Model/CorrPlat.v"])
+    if not any(b["kind"] == "translation" for b in ctx.broken):
+        pt.stream_scmp(ctx)
+        pt.stream_splat(ctx)
+    pt.oracle_c16(ctx)
+    ctx.coverage["rule"] = "pairs of EnvSpec over requires_python x platform x implementation (correspondence: 1500/20000 random pairs biased to equal / near-equal specs); wheels from the tag universe"
+
+
+REGISTRY["C16"] = run_c16
+
+
 def with_algebra_cone(inner, pid):
     """C04/C06/C17 theorems are stated over the regenerated specifier algebra: re-check that cone and the
     translator's validation stream as part of the property"""
